@@ -142,7 +142,18 @@ def gen_novar(c):
     if t not in cons and t not in extra:
       extra.append(t)
   c.shuffle(cons)
-  return {"n": n, "constraints": cons + extra}
+  # some blocks of the cycle also READ the wire written by their explicit successor: the implicit
+  # writer-before-reader pair is inverted by the explicit constraint, so it is not an edge and the cycle
+  # still carries no signal (must still be rejected, not wrapped in a fixed-point loop)
+  inv = []
+  if k >= 3:
+    for i in range(k):
+      a, b = cyc[i], cyc[(i + 1) % k]
+      # (an extra constraint that restates the implicit direction b < a would make the pair a real,
+      # value-carrying edge: keep the pair purely inverted)
+      if c.random() < 0.4 and "U(up%d) < U(up%d)" % (b, a) not in cons + extra:
+        inv.append([a, b])
+  return {"n": n, "constraints": cons + extra, "inv_reads": inv}
 
 
 def gen_methods(c):
@@ -445,7 +456,7 @@ def tmpl_source(kind, tmpl, uid):
     for i in range(n):
       B.append("@update")
       B.append("def up%d():" % i)
-      B.append("  s.w%d @= s.in0 + %d" % (i, i))
+      B.append("  s.w%d @= s.in0 + %d%s" % (i, i, "".join(" + s.w%d" % b for a, b in tmpl.get("inv_reads", []) if a == i)))
   if tmpl["constraints"]:
     B.append("s.add_constraints(%s)" % ", ".join(tmpl["constraints"]))
   L.extend("    " + b for b in B)
